@@ -241,3 +241,84 @@ func init() {
 		c.ok("dbg", "y", "", "")
 	})
 }
+
+func init() {
+	register("FLOW", func(c *Ctx) {
+		parts := strings.Split(os.Getenv("DBG_FN"), ":")
+		for _, fn := range c.P.FuncsNamed(parts[0], parts[1], parts[2]) {
+			for pi, par := range fn.Params {
+				u := newFlowUnit(c.P, fn)
+				u.seedFieldLoads(par)
+				u.seedParam(par, "$"+par.Name())
+				u.run()
+				sl := u.sinkLabels(isHashSink, nil)
+				rl := u.resultLabels()
+				var rs []string
+				for k := range rl {
+					rs = append(rs, k)
+				}
+				sort.Strings(rs)
+				fmt.Printf("%s param#%d %s\n   sink: %v\n   result: %v\n", qname(fn), pi, par.Name(), sortedKeys(sl), rs)
+			}
+		}
+		c.ok("dbg", "x", "", "")
+		c.ok("dbg", "y", "", "")
+	})
+}
+
+func init() {
+	register("ARMS", func(c *Ctx) {
+		parts := strings.Split(os.Getenv("DBG_FN"), ":")
+		for _, fn := range c.P.FuncsNamed(parts[0], parts[1], parts[2]) {
+			par := fn.Params[0]
+			for _, arm := range []string{"", "Version.Is(0)", "Version.Is(1)", "Version.Is(2)", "Version.Is(3)"} {
+				u := newFlowUnit(c.P, fn)
+				u.seedFieldLoads(par)
+				u.run()
+				sl := u.sinkLabels(isHashSink, func(in ssa.Instruction) bool {
+					if arm == "" {
+						return true
+					}
+					for _, f := range factStrings(factsAt(in)) {
+						if strings.Contains(f, arm) && !strings.HasPrefix(f, "!") {
+							return true
+						}
+					}
+					return false
+				})
+				fmt.Printf("%s arm[%s]: %v\n", qname(fn), arm, sortedKeys(sl))
+			}
+		}
+		c.ok("dbg", "x", "", "")
+		c.ok("dbg", "y", "", "")
+	})
+}
+
+func init() {
+	register("FLOWALL", func(c *Ctx) {
+		for _, spec := range strings.Split(os.Getenv("DBG_FNS"), ",") {
+			parts := strings.Split(spec, ":")
+			for _, fn := range c.P.FuncsNamed(parts[0], parts[1], parts[2]) {
+				if fn.Origin() != nil {
+					continue
+				}
+				for pi, par := range fn.Params {
+					u := newFlowUnit(c.P, fn)
+					u.seedFieldLoads(par)
+					u.seedParam(par, "$"+par.Name())
+					u.run()
+					sl := u.sinkLabels(isHashSink, nil)
+					rl := u.resultLabels()
+					var rs []string
+					for k := range rl {
+						rs = append(rs, k)
+					}
+					sort.Strings(rs)
+					fmt.Printf("%s #%d %s\n   sink: %v\n   result: %v\n", qname(fn), pi, par.Name(), sortedKeys(sl), rs)
+				}
+			}
+		}
+		c.ok("dbg", "x", "", "")
+		c.ok("dbg", "y", "", "")
+	})
+}
